@@ -234,6 +234,28 @@ func (en *Engine) effectsStep(f *ssa.Function) bool {
 				n.all = true
 			case ssa.CallInstruction:
 				c := i.Common()
+				// a value read from a package-level variable handed to a callee that writes
+				// pre-existing memory: the callee may write the shared object through it
+				writes := func(es *effectSet) bool { return es != nil && (es.all || len(es.comps) > 0) }
+				calleeWrites := false
+				if c.IsInvoke() {
+					for _, impl := range en.implementations(c) {
+						calleeWrites = calleeWrites || writes(en.effMemo[impl])
+					}
+				} else if cf, ok := c.Value.(*ssa.Function); ok {
+					calleeWrites = writes(en.effMemo[cf])
+				}
+				if calleeWrites {
+					if c.IsInvoke() {
+						viaGlobal(c.Value, i)
+					}
+					for _, a := range c.Args {
+						switch a.Type().Underlying().(type) {
+						case *types.Pointer, *types.Slice, *types.Map, *types.Interface:
+							viaGlobal(a, i)
+						}
+					}
+				}
 				if c.IsInvoke() {
 					for _, impl := range en.implementations(c) {
 						if en.effMemo[impl] != nil {
@@ -497,7 +519,7 @@ func globalDerived(f *ssa.Function) map[ssa.Value]string {
 			for _, ins := range b.Instrs {
 				switch i := ins.(type) {
 				case *ssa.UnOp:
-					if g, ok := i.X.(*ssa.Global); ok {
+					if g, ok := i.X.(*ssa.Global); ok && repoGlobal(g) {
 						// only reference-like values can be written through
 						switch i.Type().Underlying().(type) {
 						case *types.Pointer, *types.Slice, *types.Map:
@@ -531,4 +553,10 @@ func globalDerived(f *ssa.Function) map[ssa.Value]string {
 		}
 	}
 	return der
+}
+
+// repoGlobal: the package-level variable belongs to the repository. Variables of dependencies
+// (os.Stderr, ...) are the dependency's to synchronise: *os.File is safe for concurrent use.
+func repoGlobal(g *ssa.Global) bool {
+	return g.Pkg != nil && strings.HasPrefix(g.Pkg.Pkg.Path(), modPath)
 }
